@@ -29,9 +29,9 @@ def main(tier, only):
                       "GrammarFuzzer.expand_node_by_cost", "GrammarFuzzer.expansion_to_children", "GrammarCoverageFuzzer.choose_node_expansion"]] +
                      [common.src_range("src/isla/mutator.py", f) for f in ["Mutator.replace_subtree_randomly", "Mutator.generalize_subtree"]])
     L, D, to = (4, 2, 200) if tier == "quick" else (6, 3, 2400)
-    cfgs = [dict(tag="g%d" % g, env={"VERIF_G": str(g), "VERIF_L": str(L), "VERIF_D": str(D)}, only=None, timeout=to) for g in range(3)]
-    run.bounds = dict(trees="all trees decodable from <= %d pre-order choices (open trees for expansion, closed for mutation), 3 grammars "
-                            "(statement grammar with epsilon, left-recursive expression grammar, terminals that resemble nonterminals)" % L,
+    cfgs = [dict(tag="g%d" % g, env={"VERIF_G": str(g), "VERIF_L": str(L), "VERIF_D": str(D)}, only=None, timeout=to) for g in range(4)]
+    run.bounds = dict(trees="all trees decodable from <= %d pre-order choices (open trees for expansion, closed for mutation), 4 grammars "
+                            "(statement grammar with epsilon, left-recursive expression grammar, terminals that resemble nonterminals, recursive start symbol)" % L,
                       random="every periodic stream of period %d over 4 values, replayed into randrange/randint/choice/choices/random/shuffle/sample" % D)
     run.engines = dict(crosshair="crosshair-tool 0.0.110 on z3 4.11.2")
     run.trusted = ["tree validator vlib.valid_tree", "random stub (Stream) in the harness"]
